@@ -17,7 +17,6 @@ import (
 	"strings"
 	"time"
 
-	"mvdan.cc/sh/v3/interp"
 )
 
 // ---------------------------------------------------------------------------------------------
@@ -130,39 +129,9 @@ func c28SearchVector(r *Rand, negOK bool) string {
 	return strings.Join(parts, " ")
 }
 
-// getopts call sequences: the generator simulates the cursor with the real getopts.next (hook) and
-// the OPTIND synchronisation of the builtin, and drops a call that would hit the known finding
-// C28-getopts-stale-runeidx (stale runeidx against a changed argument vector).
-type c28GSim struct {
-	g      interp.VerifC28Getopts
-	optind int
-}
-
-func (s *c28GSim) call(setOptind *int, optstr string, args []string) (ok bool) {
-	g, oi := s.g, s.optind
-	if setOptind != nil {
-		oi = *setOptind
-	}
-	local := oi
-	if local-1 != g.ArgIdx {
-		if local < 1 {
-			local = 1
-		}
-		g = interp.VerifC28Getopts{ArgIdx: local - 1}
-	}
-	_, _, _, p := g.Next(optstr, args)
-	if p != "" {
-		return false
-	}
-	if local-1 != g.ArgIdx {
-		oi = g.ArgIdx + 1
-	}
-	s.g, s.optind = g, oi
-	return true
-}
-
+// getopts call sequences with changing argument vectors and OPTIND values (no exclusion any more:
+// a stale rune cursor is repaired since fix 77cabce).
 func c28GetoptsSeq(r *Rand) string {
-	sim := &c28GSim{optind: 1}
 	var sb strings.Builder
 	params := c28GetoptsArgs(r)
 	sb.WriteString("set --")
@@ -174,24 +143,14 @@ func c28GetoptsSeq(r *Rand) string {
 	for k := 0; k < n; k++ {
 		optstr := c28Optstr(r)
 		var args []string
-		explicit := r.Chance(50)
-		if explicit {
+		if r.Chance(50) {
 			args = c28GetoptsArgs(r)
 		}
-		var so *int
 		if r.Chance(25) {
-			v := []int{0, 1, 2, 3, -1, 99}[r.Intn(6)]
-			so = &v
+			fmt.Fprintf(&sb, "OPTIND=%d\n", []int{0, 1, 2, 3, -1, 99}[r.Intn(6)])
 		}
-		eff := args
-		if len(eff) == 0 {
-			eff = params
-		}
-		if !sim.call(so, optstr, eff) {
-			continue // excluded region
-		}
-		if so != nil {
-			fmt.Fprintf(&sb, "OPTIND=%d\n", *so)
+		if r.Chance(15) {
+			sb.WriteString("set -- " + sq(c28GetoptsArg(r)) + "\n")
 		}
 		sb.WriteString("getopts " + sq(optstr) + " opt")
 		for _, a := range args {
@@ -210,8 +169,7 @@ func c28BuiltinProgram(r *Rand) (script string, tags []string) {
 	if name == "getopts" && r.Chance(60) {
 		return c28GetoptsSeq(r), []string{"builtin:getopts-seq"}
 	}
-	negOK := name != "shift" // known finding C28-shift-negative: `shift` with a negative count
-	one := func() string { return name + " " + c28SearchVector(r, negOK) }
+	one := func() string { return name + " " + c28SearchVector(r, true) }
 	cmd := one()
 	if r.Chance(35) { // repeated calls with changing arguments
 		k := 1 + r.Intn(3)
@@ -274,8 +232,8 @@ func (g *c28Gen) num() string {
 	return g.r.Pick([]string{"0", "1", "2", "3", "7", "-1", "10", "08", "0x1f", "2#101", "64#_", "9223372036854775807", "-9223372036854775808", "99999999999999999999"})
 }
 
-// arith generates an arithmetic expression.  Known finding C28-arith-lvalue-index: `++ -- = op=`
-// are only applied to plain names, never to `a[i]`.
+// arith generates an arithmetic expression; `++ -- = op=` are applied to plain names and to `a[i]`,
+// prefix and postfix together (`++x++`) included (errors, not panics, since fix fd86341).
 func (g *c28Gen) arith(d int) string {
 	r := g.r
 	if d <= 0 || r.Chance(35) {
@@ -302,11 +260,11 @@ func (g *c28Gen) arith(d int) string {
 	case 2:
 		return r.Pick([]string{"!", "~", "-", "+"}) + g.arith(d-1)
 	case 3:
-		return g.name() + r.Pick([]string{"++", "--"})
+		return g.lvalue() + r.Pick([]string{"++", "--"})
 	case 4:
-		return r.Pick([]string{"++", "--"}) + g.name()
+		return r.Pick([]string{"++", "--"}) + g.lvalue() + r.Pick([]string{"", "", "", "++", "--"})
 	case 5:
-		return g.name() + r.Pick([]string{"=", "+=", "-=", "*=", "/=", "%=", "<<=", ">>=", "&=", "|=", "^="}) + g.arith(d-1)
+		return g.lvalue() + r.Pick([]string{"=", "+=", "-=", "*=", "/=", "%=", "<<=", ">>=", "&=", "|=", "^="}) + g.arith(d-1)
 	case 6:
 		return g.arith(d-1) + "?" + g.arith(d-1) + ":" + g.arith(d-1)
 	case 7:
@@ -316,6 +274,13 @@ func (g *c28Gen) arith(d int) string {
 	default:
 		return g.arith(d-1) + " " + r.Pick([]string{"+", "-", "*"}) + " " + g.arith(d-1)
 	}
+}
+
+func (g *c28Gen) lvalue() string {
+	if g.r.Chance(25) {
+		return g.r.Pick([]string{"arr[1]", "arr[i]", "arr[n+1]", "x[0]", "m[k]"})
+	}
+	return g.name()
 }
 
 func (g *c28Gen) paramExp() string {
@@ -435,7 +400,7 @@ func (g *c28Gen) simple(d int) string {
 		return "echo " + g.words(3) + g.redirs()
 	case 2:
 		name := r.Pick(c28Builtins)
-		return name + " " + c28SearchVector(r, name != "shift") + g.redirs()
+		return name + " " + c28SearchVector(r, true) + g.redirs()
 	case 3:
 		return g.name() + "=" + g.word(d) + r.Pick([]string{"", " echo $" + g.name(), " true"})
 	case 4:
